@@ -582,7 +582,7 @@ class LoaderBase(ABC):
             local_shifts
         ).rotate_by_rotvec_internal(rotator.as_rotvec())
 
-        if remainder > 1:
+        if remainder >= 1:
             labels %= remainder  # type: ignore
         labels = labels.astype(np.uint8)
 
